@@ -4620,3 +4620,119 @@ func ruleNilMapWrite(prog *Program, rep *Report, rels ...string) {
 		rep.Discharge("E-nilmapwrite", rel, rel, fmt.Sprintf("%d stores examined, %d accepted", n, acc))
 	}
 }
+
+// ---------------------------------------------------------------- F-paramtwins
+
+// ruleParamTwins: two functions of one package whose signatures differ only in the basic type of one
+// parameter (ignoreIndex(i int, ignores []Path) bool / ignoreKey(k string, ignores []Path) bool) are the same
+// function for two kinds of path element. Their bodies are compared after the names of their parameters and
+// locals are replaced by positional placeholders and the differing basic type by T.
+func ruleParamTwins(prog *Program, rep *Report, floor int, rels ...string) {
+	rep.Rules = append(rep.Rules, "F-paramtwins: two functions of a package whose signatures differ only in the basic type of one parameter, and that are the only such partners of each other, have the same statements once parameter and local names are replaced by positional placeholders and the differing type by T ("+strings.Join(rels, ", ")+")")
+	n := 0
+	for _, rel := range rels {
+		pk := prog.Pkg(rel)
+		if pk == nil {
+			rep.Errorf("F-paramtwins: package %s not loaded", rel)
+			continue
+		}
+		info := pk.TypesInfo
+		type ent struct {
+			fd   *ast.FuncDecl
+			diff string // the basic type that was replaced
+		}
+		groups := map[string][]ent{}
+		for _, f := range pk.Syntax {
+			for _, d := range f.Decls {
+				fd, ok := d.(*ast.FuncDecl)
+				if !ok || fd.Body == nil || fd.Recv != nil {
+					continue
+				}
+				o, _ := info.Defs[fd.Name].(*types.Func)
+				if o == nil {
+					continue
+				}
+				sg := o.Type().(*types.Signature)
+				if sg.Params().Len() < 2 || sg.Variadic() {
+					continue
+				}
+				// exactly one parameter of basic type among at least one parameter of a named/composite type
+				basicAt, nb := -1, 0
+				for i := 0; i < sg.Params().Len(); i++ {
+					if _, ok := sg.Params().At(i).Type().(*types.Basic); ok {
+						basicAt = i
+						nb++
+					}
+				}
+				if nb != 1 {
+					continue
+				}
+				var parts []string
+				for i := 0; i < sg.Params().Len(); i++ {
+					if i == basicAt {
+						parts = append(parts, "T")
+					} else {
+						parts = append(parts, sg.Params().At(i).Type().String())
+					}
+				}
+				key := strings.Join(parts, ",") + "->" + sg.Results().String()
+				groups[key] = append(groups[key], ent{fd, sg.Params().At(basicAt).Type().String()})
+			}
+		}
+		norm := func(e ent) []string {
+			// positional names for parameters and locals, in order of definition
+			names := map[string]string{}
+			k := 0
+			ast.Inspect(e.fd, func(nd ast.Node) bool {
+				if ts, ok := nd.(*ast.TypeSwitchStmt); ok {
+					// the variable a type switch binds has no object of its own (one per clause)
+					if as, ok := ts.Assign.(*ast.AssignStmt); ok && len(as.Lhs) == 1 {
+						if id, ok := as.Lhs[0].(*ast.Ident); ok {
+							if _, seen := names[id.Name]; !seen {
+								names[id.Name] = fmt.Sprintf("v%d", k)
+								k++
+							}
+						}
+					}
+				}
+				if id, ok := nd.(*ast.Ident); ok {
+					if v, ok := info.Defs[id].(*types.Var); ok && !v.IsField() && id.Name != "_" {
+						if _, seen := names[id.Name]; !seen {
+							names[id.Name] = fmt.Sprintf("v%d", k)
+							k++
+						}
+					}
+				}
+				return true
+			})
+			var out []string
+			for _, l := range twinBodyLines(e.fd) {
+				for old, nw := range names {
+					l = regexp.MustCompile(`\b`+regexp.QuoteMeta(old)+`\b`).ReplaceAllString(l, "\x00"+nw+"\x00")
+				}
+				l = strings.ReplaceAll(l, "\x00", "")
+				l = regexp.MustCompile(`\b`+regexp.QuoteMeta(e.diff)+`\b`).ReplaceAllString(l, "T")
+				out = append(out, l)
+			}
+			return out
+		}
+		for _, g := range groups {
+			if len(g) != 2 || g[0].diff == g[1].diff {
+				continue
+			}
+			n++
+			a, b := norm(g[0]), norm(g[1])
+			key := fmt.Sprintf("%s.%s=%s", rel, g[0].fd.Name.Name, g[1].fd.Name.Name)
+			if strings.Join(a, "\n") == strings.Join(b, "\n") {
+				rep.Discharge("F-paramtwins", key, prog.Pos(g[0].fd.Pos()), fmt.Sprintf("%d statements equal", len(a)))
+				continue
+			}
+			oa, ob := diffLines(a, b)
+			rep.Violate(Finding{Rule: "F-paramtwins", Key: key, Pos: prog.Pos(g[1].fd.Pos()), Msg: fmt.Sprintf("%s and %s are one function for two element types and differ: only in %s %v; only in %s %v", g[0].fd.Name.Name, g[1].fd.Name.Name, g[0].fd.Name.Name, oa, g[1].fd.Name.Name, ob)})
+		}
+	}
+	rep.Eval(n)
+	if n < floor {
+		rep.Errorf("F-paramtwins compared %d pairs (floor %d)", n, floor)
+	}
+}
